@@ -64,11 +64,12 @@ def series_event(pp, tid, A, mono, rnd):
     o, r = call(f)
     ev["out"] = o
     if o != "ret":
-        ev.update(M=[0, 0], a=[], b=[], c=[], x=[], y=[], z=[], imm=[], internal=[])
+        ev.update(M=[0, 0], a=[], b=[], c=[], x=[], y=[], z=[], imm=[], internal=[], labels=[])
         return ev
     M, tf, im, it = r
     ev["M"] = fix(M)
     slots = {t: [[None] * 4 for _ in range(n)] for t in TERMINAL}
+    labels = []
     for fr in tf:
         idx = fr.end - 1 if fr.ion_type in "abc" else fr.start
         ok = (fr.start == 0) if fr.ion_type in "abc" else (fr.end == n)
@@ -76,6 +77,9 @@ def series_event(pp, tid, A, mono, rnd):
             ev["bad"].append(f"{fr.ion_type}:{fr.start}:{fr.end}:{fr.charge}")
             continue
         slots[fr.ion_type][idx][fr.charge - 1] = fix(fr.mass)
+        # how the ion calls itself: b_i is the ion ending at residue i, y_j the one made of the last j residues
+        labels.append({"t": fr.ion_type, "s": fr.start, "e": fr.end, "z": fr.charge, "num": str(fr.number), "label": str(fr.label)})
+    ev["labels"] = labels if len(labels) <= 40 else rnd.sample(labels, 40)
     imm = [[None, None] for _ in range(n)]
     for fr in im:
         if fr.end != fr.start + 1 or not (0 <= fr.start < n) or imm[fr.start][fr.charge - 1] is not None:
